@@ -121,6 +121,10 @@ def run_case(c):
             if out2 != out_hex:
                 raise Violation("depends-on-non-final-ops", "%s vs %s" % (out_hex[:200],
                                                                          out2[:200]))
+        # the transformation is a function of its input only: asking again, after other
+        # transactions went through, gives the same answer
+        if cb.get_unsigned_tx(raw.hex()) != out_hex:
+            raise Violation("depends-on-call-history", "second call differs from the first")
         return Out(labels, c["kind"] == "pair" or (nonmin and len(tx[1]) >= 2))
     m = c["mal"]
     labels.append("mal:" + m)
